@@ -71,6 +71,9 @@ pub struct Builder<'a, I: HInput<'a>, E: HErr<'a, I>> {
     cv: I::Conv,
     /// Handles of the enclosing `Rec`/`RecDecl` nodes, innermost last (`(Var k)` counts from the end).
     env: RefCell<Vec<Handle<'a, I, E>>>,
+    /// `(Memo id a)`: one `memoized()` per id; a second occurrence of the id is a clone of the first (clones of a memoized
+    /// parser share its cache key)
+    memo: RefCell<std::collections::HashMap<usize, P<'a, I, E>>>,
     _p: PhantomData<fn() -> (&'a (), E)>,
 }
 
@@ -364,7 +367,7 @@ macro_rules! array_of {
 
 impl<'a, I: HInput<'a>, E: HErr<'a, I>> Builder<'a, I, E> {
     pub fn new(cv: I::Conv) -> Self {
-        Builder { cv, env: RefCell::new(Vec::new()), _p: PhantomData }
+        Builder { cv, env: RefCell::new(Vec::new()), memo: RefCell::new(std::collections::HashMap::new()), _p: PhantomData }
     }
 
     /// Build the parser for a grammar.
@@ -553,7 +556,17 @@ impl<'a, I: HInput<'a>, E: HErr<'a, I>> Builder<'a, I, E> {
             G::JustCfg(ts) => I::just_cfg(ts),
 
             // ---------- version 2: memoization, recursion, pratt ----------
-            G::Memo(_id, a) => bx(self.g(a)?.memoized()),
+            G::Memo(id, a) => {
+                let hit = self.memo.borrow().get(id).cloned();
+                match hit {
+                    Some(p) => p,
+                    None => {
+                        let p = bx(self.g(a)?.memoized());
+                        self.memo.borrow_mut().insert(*id, p.clone());
+                        p
+                    }
+                }
+            }
             G::Rec(a) => {
                 let mut failed = None;
                 let p = recursive(|h| {
